@@ -828,6 +828,69 @@ func RuleR5(c *Ctx) {
 			return true
 		})
 	})
+	// leaving a context is decided with its parenthesis in view: every step outwards
+	// (`ctx = X.Parent`), in the resolver and outside it, is taken on a path on which a
+	// HasExplicitContext flag was tested - an open `(` is a barrier the walk stops at (the
+	// resolver), the thing a `)` looks for (the closing handler), or what tells a pasted
+	// parenthesised block from an open one (the paste pass)
+	flag := c.Field("directive", "Directive", "HasExplicitContext")
+	if flag == nil {
+		sc.Undecided("boundary", "-", "unresolved anchor: Directive.HasExplicitContext")
+		return
+	}
+	perFn2 := map[*ast.FuncDecl]int{}
+	c.P.Funcs(func(pk *pkgT, fd *ast.FuncDecl) {
+		info := pk.TypesInfo
+		ast.Inspect(fd.Body, func(n ast.Node) bool {
+			as, ok := n.(*ast.AssignStmt)
+			if !ok {
+				return true
+			}
+			for i, l := range as.Lhs {
+				if !fieldSel(info, l, ctxField) || i >= len(as.Rhs) {
+					continue
+				}
+				body := innermostBody(fd, as)
+				cf := c.CFG(pk, body.body)
+				rhs := ast.Unparen(cf.Resolve(as.Rhs[i]))
+				sel, ok := rhs.(*ast.SelectorExpr)
+				if !ok || info.ObjectOf(sel.Sel) != types.Object(parent) {
+					continue
+				}
+				perFn2[fd]++
+				key := fmt.Sprintf("boundary:%s#%d", c.P.DeclName(fd), perFn2[fd])
+				asked := func(fa cfgx.Fact) bool {
+					found := false
+					ast.Inspect(fa.Expr, func(y ast.Node) bool {
+						if s2, ok := y.(*ast.SelectorExpr); ok && info.ObjectOf(s2.Sel) == types.Object(flag) {
+							found = true
+						}
+						return !found
+					})
+					return found
+				}
+				// a value of the flag saved in a local just before (`was := ctx.HasExplicitContext`)
+				savedFlag := func(nd ast.Node) bool {
+					a2, ok := nd.(*ast.AssignStmt)
+					if !ok {
+						return false
+					}
+					for _, r := range a2.Rhs {
+						if s2, ok := ast.Unparen(r).(*ast.SelectorExpr); ok && info.ObjectOf(s2.Sel) == types.Object(flag) {
+							return true
+						}
+					}
+					return false
+				}
+				if cf.MustAt(as, asked, savedFlag, nil) {
+					sc.Holds(key, c.P.Pos(as.Pos()), "the step outwards is taken with the parenthesis flag in view")
+				} else {
+					sc.Violation(key, c.P.Pos(as.Pos()), "the context is moved outwards ("+types.ExprString(as.Rhs[i])+") without the HasExplicitContext flag having been looked at: the walk leaves a directive whose `(` is still open, so a directive written inside the parentheses is attached outside them and the unclosed parenthesis is no longer noticed")
+				}
+			}
+			return true
+		})
+	})
 }
 
 // RuleR2c: the `)` handler succeeds only after it found a parenthesised context. In the
@@ -1129,4 +1192,57 @@ func tw1Allowed(info *types.Info, cf *cfgx.Func, fa cfgx.Fact, children *types.V
 		}
 	}
 	return false
+}
+
+// ---------------------------------------------------------------- CH1
+
+// RuleCH1: a child is found by what it is, not by where it stands. The children of a
+// directive are in document order and the language puts no kind at a fixed position among
+// its siblings (Tags may follow a Description, a Path may follow a Query). An index
+// expression with a constant index (or `len-1`) into Directive.Children picks a child by
+// position: whatever the author wrote first is taken for - or the sought kind is only seen
+// when it is - that child.
+func RuleCH1(c *Ctx) {
+	sc := c.Run.Begin("CH1", "no constant-position access into Directive.Children (children are looked up by kind over the whole list)", 0)
+	defer sc.End()
+	children := c.Field("directive", "Directive", "Children")
+	if children == nil {
+		sc.Undecided("anchors", "-", "unresolved anchor: Directive.Children")
+		return
+	}
+	n, idx := 0, 0
+	perFn := map[*ast.FuncDecl]int{}
+	c.P.Funcs(func(pk *pkgT, fd *ast.FuncDecl) {
+		info := pk.TypesInfo
+		ast.Inspect(fd.Body, func(x ast.Node) bool {
+			ix, ok := x.(*ast.IndexExpr)
+			if !ok {
+				return true
+			}
+			sel, ok := ast.Unparen(ix.X).(*ast.SelectorExpr)
+			if !ok || info.ObjectOf(sel.Sel) != types.Object(children) {
+				return true
+			}
+			idx++
+			positional := false
+			if tv, ok := info.Types[ix.Index]; ok && tv.Value != nil {
+				positional = true
+			}
+			if be, ok := ast.Unparen(ix.Index).(*ast.BinaryExpr); ok && be.Op == token.SUB {
+				if _, isLen := lengthExpr(info, be.X); isLen {
+					positional = true
+				}
+			}
+			if !positional {
+				return true
+			}
+			n++
+			perFn[fd]++
+			sc.Violation(fmt.Sprintf("%s#%d", c.P.DeclName(fd), perFn[fd]), c.P.Pos(ix.Pos()), "a child directive is taken by its position ("+types.ExprString(ix)+"): a directive of the sought kind that is not written at that position is not seen (Tags after a Description are ignored), or another kind is taken for it")
+			return true
+		})
+	})
+	if n == 0 {
+		sc.Holds("children", "-", fmt.Sprintf("%d index expressions into Directive.Children, none with a constant position", idx))
+	}
 }
